@@ -17,6 +17,8 @@ import (
 	"github.com/openconfig/goyang/pkg/yang"
 	"pgregory.net/rapid"
 
+	"github.com/openconfig/goyang/pkg/yangentry"
+
 	"verif/lib/canon"
 	"verif/lib/ev"
 	"verif/lib/hostile"
@@ -229,14 +231,63 @@ func check(c Case) (o ev.Outcome) {
 	for i, f := range files {
 		rev[len(files)-1-i] = f
 	}
-	for _, format := range []string{"tree", "types"} {
+	// the importers alone: what they import is then fetched from the directory
+	var users []string
+	for _, f := range files {
+		if strings.HasPrefix(f, "user") {
+			users = append(users, f)
+		}
+	}
+	type variant struct {
+		name  string
+		flags []string
+		fwd   []string
+		back  []string
+	}
+	variants := []variant{{"tree", []string{"--format", "tree"}, files, rev}, {"types", []string{"--format", "types"}, files, rev}, {"types-debug", []string{"--format", "types", "--types_debug"}, files, rev}}
+	if len(users) > 0 && len(users) < len(files) {
+		ru := make([]string, len(users))
+		for i, f := range users {
+			ru[len(users)-1-i] = f
+		}
+		variants = append(variants, variant{"tree-imports-fetched", []string{"--format", "tree"}, users, ru}, variant{"types-imports-fetched", []string{"--format", "types"}, users, ru})
+	}
+	// the library's own file-based entry point
+	{
+		var first string
+		for i := 0; i < 6; i++ {
+			var names []string
+			for _, f := range files {
+				names = append(names, filepath.Join(dir, f))
+			}
+			entries, errs := yangentry.Parse(names, []string{dir})
+			var keys []string
+			for k, e := range entries {
+				held := "?"
+				if m, ok := e.Node.(*yang.Module); ok {
+					held = m.FullName()
+				}
+				keys = append(keys, k+"="+held)
+			}
+			sort.Strings(keys)
+			res := fmt.Sprintf("%v %q", keys, canon.ErrStrings(errs))
+			if i == 0 {
+				first = res
+			} else if res != first {
+				o.Violate("cli-reproducible", "C05/yangentry-parse-varies", "yangentry.Parse of the same files: run %d gives %s, run 0 gave %s", i, res, first)
+				return
+			}
+		}
+	}
+	for _, v := range variants {
+		format := v.name
 		var firstOut string
 		for i := 0; i < 6; i++ {
-			args := []string{"--format", format}
+			args := append([]string(nil), v.flags...)
 			if i%2 == 0 {
-				args = append(args, files...)
+				args = append(args, v.fwd...)
 			} else {
-				args = append(args, rev...)
+				args = append(args, v.back...)
 			}
 			cmd := exec.Command(cli, args...)
 			cmd.Dir = dir
@@ -249,7 +300,7 @@ func check(c Case) (o ev.Outcome) {
 				continue
 			}
 			if res != firstOut {
-				o.Violate("cli-reproducible", "C05/cli-output-varies/"+format, "goyang --format %s: run %d (arguments %v) differs from run 0:\n%.600s\n--- vs ---\n%.600s", format, i, args[2:], res, firstOut)
+				o.Violate("cli-reproducible", "C05/cli-output-varies/"+format, "goyang %s: run %d (arguments %v) differs from run 0:\n%.600s\n--- vs ---\n%.600s", format, i, args, res, firstOut)
 				return
 			}
 		}
